@@ -1144,9 +1144,10 @@ fn apply(doc: &mut DV, lc: &LC, m: &Mutant) -> Expect {
             if value.ends_with("+modulate") {
                 d.insert("modulate", DV::Bool(true));
             }
-            // malformed beyond doubt (negative for an unsigned field, not representable in the field's type):
+            // malformed beyond doubt (negative for an unsigned field, not representable in the field's type, a unit that is
+            // none of the documented ones):
             // must be rejected, at the document layer (a format that cannot express it) or for that appender
-            let must_reject = value.starts_with('-') || value == "4294967296" || value.len() >= 30 || !value.is_ascii();
+            let must_reject = value.starts_with('-') || value == "4294967296" || value.len() >= 30 || !value.is_ascii() || ["2 hourss", "1 secondsS", "3 minute s", "10 kbs"].contains(&value.as_str());
             if must_reject {
                 Expect::RejectedSomewhere(a.name.clone())
             } else {
